@@ -10,7 +10,9 @@ var ExtraKinds = []string{"zero", "byte", "short", "int", "long", "float", "doub
 	"map-empty", "map-str-int", "map-nested", "list-empty", "list-mixed-ints", "list-structs", "list-nested-6", "simplelist-empty", "simplelist-300",
 	"struct-empty", "struct-all-kinds", "struct-nested-6", "struct-ext-tags",
 	// wide rather than deep: more sibling containers than any nesting bound
-	"list-1500-lists", "list-1500-maps", "list-1500-structs", "map-1500-lists"}
+	"list-1500-lists", "list-1500-maps", "list-1500-structs", "map-1500-lists",
+	// elements of one list in different widths: a 0.0 written as the zero marker among floats / doubles, integers of every width
+	"list-floats-with-zero", "list-doubles-with-zero", "list-ints-all-widths"}
 
 // DeepKinds: unknown fields nested far deeper than any schema goes (N containers inside one another,
 // the innermost holding a struct of every kind and a map whose value sits under tag 1, so that a
@@ -93,6 +95,27 @@ func ExtraField(kind string, tag int, r *rand.Rand) []byte {
 		}
 	}
 	switch kind {
+	case "list-floats-with-zero", "list-doubles-with-zero":
+		b = AppendHead(b, TList, tag)
+		b = AppendInt(b, 5, 0)
+		for i := 0; i < 5; i++ {
+			switch {
+			case i == 1 || i == 3:
+				b = AppendIntWidth(b, 0, TZero, 0)
+			case kind == "list-floats-with-zero":
+				b = AppendFloat32(b, r.Uint32(), 0)
+			default:
+				b = AppendFloat64(b, r.Uint64(), 0)
+			}
+		}
+		return b
+	case "list-ints-all-widths":
+		b = AppendHead(b, TList, tag)
+		b = AppendInt(b, 6, 0)
+		for i, w := range []int{TLong, TZero, TByte, TInt, TShort, TLong} {
+			b = AppendIntWidth(b, int64(i*3-4), w, 0)
+		}
+		return b
 	case "zero":
 		return AppendIntWidth(b, 0, TZero, tag)
 	case "byte":
